@@ -255,7 +255,7 @@ impl EditState {
         let _undo = self.begin_atomic_undo(fl!(crate::LANGUAGE_LOADER, "undo-delete-selection"));
         let layer_idx = self.get_current_layer()?;
         let (area, old_layer) = if let Some(layer) = self.buffer.layers.get_mut(layer_idx) {
-            (layer.get_rectangle(), layer.clone())
+            (layer.get_rectangle(), Layer::from_layer(layer, layer.get_rectangle() - layer.get_offset()))
         } else {
             return Err(EditorError::CurrentLayerInvalid.into());
         };
@@ -268,8 +268,8 @@ impl EditState {
                 }
             }
         }
-        let new_layer = self.buffer.layers.get_mut(layer_idx).unwrap().clone();
-        let op = super::undo_operations::UndoLayerChange::new(self.get_current_layer()?, area.start, old_layer, new_layer);
+        let new_layer = Layer::from_layer(&self.buffer.layers[layer_idx], area - area.start);
+        let op = super::undo_operations::UndoLayerChange::new(self.get_current_layer()?, Position::default(), old_layer, new_layer);
         let _ = self.push_plain_undo(Box::new(op));
         self.clear_selection()
     }
